@@ -278,7 +278,12 @@ func checkCase(c Case) (out evid.Outcome) {
 		path = "/g/r"
 	}
 	spy := rt.NewSpy()
-	f.ServeHTTP(spy, rt.NewRequest(c.Method, path, nil))
+	if len(c.S)%2 == 0 {
+		// (half of the cases: an underlying writer with a WriteString method)
+		f.ServeHTTP(rt.StringSpy{Spy: spy}, rt.NewRequest(c.Method, path, nil))
+	} else {
+		f.ServeHTTP(spy, rt.NewRequest(c.Method, path, nil))
+	}
 	if c.Custom == "request" && c.Own == "" {
 		// the replacement was this request's: the next request, for which nobody
 		// maps one, gets the table again
